@@ -265,10 +265,14 @@ def parse_dot(path):
                 lab = m.group(1)
                 filled = "style = filled" in line
                 st = {}
+                conj = []   # TLC wraps long values over several lines: join continuation lines
                 for part in lab.split("\\n"):
                     part = part.replace('\\"', '"').replace("\\\\", "\\").strip()
-                    if part.startswith("/\\ "):
-                        part = part[3:]
+                    if part.startswith("/\\ ") or not conj:
+                        conj.append(part[3:] if part.startswith("/\\ ") else part)
+                    else:
+                        conj[-1] += " " + part
+                for part in conj:
                     if " = " in part:
                         k, v = part.split(" = ", 1)
                         st[k.strip()] = parse_tla_value(v)
